@@ -708,9 +708,9 @@ func TestC01(t *testing.T) {
 		plain := cas.R
 		plain.PC = res.R.PC
 		nt := res.R != plain || len(res.Writes()) > 0 || res.Taken
-		class := "base"
+		class := "gen-base"
 		if cas.Code[0] == 0xcb {
-			class = "cb"
+			class = "gen-cb"
 		}
 		if len(res.Acc) > 0 {
 			class += "-mem"
